@@ -1,68 +1,78 @@
 /-
 C12 driver.
   stubs <cfg> <file>                      → hex of the model's stub text (the input of go/format)
+  wf-stubs <cfg> <file>                   → 1 | 0   (the token hypotheses `WFStubs` of the text-level theorems)
   accept-stubs <cfg> <file> <output-hex>  → ok | bad-…  (the implementation's formatted stub file:
                                             one package clause as configured, one `func` line per
                                             function in file order, its directives directly above it)
   accept-cons <file> <asm-hex> <stub-hex> → ok | bad-…  (both outputs carry the same constraint lines)
   accept-gostub <verdict> …, accept-build <verdict> … → ok iff the harness measured `ok`
-                                            (go/parser, go/types, go/format; go list/build/vet)
+                                            (go/parser, go/types, go/format; go list/build/vet/link)
+
+Request encoding (harness/c12enc.go):
+  cfg     := <name-hex> <0 | 1 n arg-hex*> <pkg-hex>
+  file    := <hasConstraints 0/1> <n> cons-line-hex* <n> section*
+  section := fn <name-hex> <stub-hex> <n> doc-hex* <n> (dir-hex <n> arg-hex*)*  |  gl <sym-hex>
+(the parts of the structured file the stub printer does not look at are not transmitted)
 -/
-import AvoVerif.Drv.Print
+import AvoVerif.Drv.Common
+import AvoVerif.Model.Stubs
 namespace Avo.Drv.C12
-open Avo.Drv Avo.Drv.Print Avo.Print
+open Avo.Drv Avo.Print
 
-def hasPrefix (p : String) (t : Txt) : Bool := (stripPrefix p.toList t).isSome
+abbrev P (α : Type) := List String → Option (α × List String)
 
-def isConstraintLine (t : Txt) : Bool := hasPrefix "//go:build" t || hasPrefix "// +build" t
+def txtTok : P Txt
+  | [] => none
+  | t :: ts => (unhexStr t).map (fun s => (s.toList, ts))
 
-/-- Constraint lines of the header: everything before the first line that is
-neither blank nor a `//` comment nor an `#include`. -/
-def headerConstraints : List Txt → List Txt
-  | [] => []
-  | l :: ls =>
-    if l.isEmpty || hasPrefix "//" l || hasPrefix "#include" l then
-      (if isConstraintLine l then [l] else []) ++ headerConstraints ls
-    else []
+def boolTok : P Bool
+  | "0" :: ts => some (false, ts)
+  | "1" :: ts => some (true, ts)
+  | _ => none
 
-/-- The comment block directly above position `i` (nearest line first). -/
-def commentsAbove (rev : List Txt) : List Txt := rev.takeWhile (hasPrefix "//")
+def pragmaTok : P Pragma := fun ts => do
+  let (d, ts) ← txtTok ts
+  let (as, ts) ← listOf txtTok ts
+  some (⟨d, as⟩, ts)
 
-/-- `func` lines with the directive lines of the comment block above each. -/
-def funcDecls : List Txt → List Txt → List (Txt × List Txt)
-  | [], _ => []
-  | l :: ls, rev =>
-    match stripPrefix ['f', 'u', 'n', 'c', ' '] l with
-    | some r =>
-      (r.takeWhile (fun c => c != '('), ((commentsAbove rev).filter (hasPrefix "//go:")).reverse) ::
-        funcDecls ls (l :: rev)
-    | none => funcDecls ls (l :: rev)
+def secTok : P Sec
+  | "fn" :: ts => do
+    let (name, ts) ← txtTok ts
+    let (stub, ts) ← txtTok ts
+    let (doc, ts) ← listOf txtTok ts
+    let (pragmas, ts) ← listOf pragmaTok ts
+    some (.fn { name := name, attrs := 0#16, frame := 0, args := 0, isa := [], stub := stub, doc := doc,
+                pragmas := pragmas, nodes := [] }, ts)
+  | "gl" :: ts => do
+    let (sym, ts) ← txtTok ts
+    some (.gl { sym := sym, static := true, attrs := 0#16, size := 0, data := [] }, ts)
+  | _ => none
 
-def acceptStubs (cfg : Config) (f : File) (out : Txt) : String :=
-  let ls := splitNL out
-  if ls.getLast? != some [] then "bad-no-final-newline" else
-  let ls := ls.dropLast
-  let pk := ls.filterMap (stripPrefix ['p', 'a', 'c', 'k', 'a', 'g', 'e', ' '])
-  if pk != [cfg.pkg] then "bad-package" else
-  if headerConstraints ls != f.constraints then "bad-constraints" else
-  let ds := funcDecls ls []
-  let fs := f.functions
-  if ds.map (·.1) != fs.map (·.name) then "bad-declarations" else
-  if ds.map (·.2) != fs.map (fun fn => fn.pragmas.map (fun p => pragmaText p.directive p.args)) then "bad-pragmas"
-  else "ok"
+def cfgTok : P Config := fun ts => do
+  let (name, ts) ← txtTok ts
+  let (hasArgv, ts) ← boolTok ts
+  let (argv, ts) ← (if hasArgv then (listOf txtTok ts).map (fun p => (some p.1, p.2)) else some (none, ts))
+  let (pkg, ts) ← txtTok ts
+  some ({ name := name, argv := argv, pkg := pkg }, ts)
 
-def acceptCons (f : File) (asm stub : Txt) : String :=
-  let a := headerConstraints (splitNL asm)
-  let s := headerConstraints (splitNL stub)
-  if a != s then "bad-constraints-differ"
-  else if a != f.constraints then "bad-constraints-lost"
-  else "ok"
+def fileTok : P File := fun ts => do
+  let (hc, ts) ← boolTok ts
+  let (cons, ts) ← listOf txtTok ts
+  let (secs, ts) ← listOf secTok ts
+  some ({ hasConstraints := hc, constraints := cons, includes := [], sections := secs }, ts)
+
+def hexTxt (t : Txt) : String := hexStr (String.ofList t)
 
 def handle : Handler
   | "stubs" :: ts => do
     let (cfg, ts) ← cfgTok ts
     let (f, _) ← fileTok ts
     some (hexTxt (render (printStubs cfg f)))
+  | "wf-stubs" :: ts => do
+    let (cfg, ts) ← cfgTok ts
+    let (f, _) ← fileTok ts
+    some (if wfStubsB cfg f then "1" else "0")
   | "accept-stubs" :: ts => do
     let (cfg, ts) ← cfgTok ts
     let (f, ts) ← fileTok ts
@@ -79,6 +89,6 @@ def handle : Handler
   | _ => none
 
 def handlers : List (String × Handler) :=
-  ["stubs", "accept-stubs", "accept-cons", "accept-gostub", "accept-build"].map (·, handle)
+  ["stubs", "wf-stubs", "accept-stubs", "accept-cons", "accept-gostub", "accept-build"].map (·, handle)
 
 end Avo.Drv.C12
